@@ -448,3 +448,123 @@ def f64_accumulate(rep, prog, rule, floor=20):
             else:
                 rep.unk(rule, key, at, "%s in single precision outside a loop" % nm)
     rep.floor(rule, "floating-point operations in the f32 kernels", n, floor)
+
+
+def native_clip(rep, prog, rule, floor=10):
+    rep.rule(rule, "in the portable 8 / 16-bit convolution kernels every value stored into a destination "
+             "component is the result of the normaliser's clip(..) (shift by the precision and clamp to "
+             "[0, max]): a narrowing built from the shifted sum in another way -- `u8::try_from(ss >> p)"
+             ".unwrap_or(u8::MAX)` -- turns a NEGATIVE sum (undershoot of a filter with negative lobes) "
+             "into the maximum instead of 0. The scalar tails of the SIMD kernels call these functions")
+    n = 0
+    for f in sorted(prog.fns.values(), key=lambda x: x.id):
+        if not re.match(r"^convolution::(u8|u16|vertical_u8|vertical_u16)\w*::native::", f.name):
+            continue
+        sym = None
+        for b, blk in enumerate(f.blocks):
+            if blk["c"]:
+                continue
+            for j, st in enumerate(blk["s"]):
+                if not (st[0] == "a" and "*" in st[1][1:]):
+                    continue
+                ty = f.local_ty(st[1][0]) or ""
+                if not (re.match(r"^(&mut|\*mut) u(8|16)$", ty) or ty.startswith("&mut pixels::Pixel<")
+                        or re.match(r"^&mut \[u(8|16)", ty)):
+                    continue
+                sym = sym or Sym(f)
+                e = sym.rvalue(st[2], b, (b, j))
+                s_ = fmt(e)
+                n += 1
+                rep.touch(f)
+                key = "%s|store" % f.name
+                if re.search(r"\bclip\b", s_) or re.search(r"\bclip@", s_):
+                    rep.ok(rule, key, st[3], "clip(..)")
+                elif re.search(r"unwrap_or|try_from|try_into|as u8|as u16|IntToInt", s_) and \
+                        re.search(r"Shr|>>", s_):
+                    rep.bad(rule, key + "|not-clip", st[3],
+                            "%s stores %s: the shifted sum is narrowed without the normaliser's clip; a "
+                            "negative sum does not become 0" % (f.name, s_[:100]))
+                else:
+                    rep.unk(rule, key, st[3], "stored value %s" % s_[:100])
+    rep.floor(rule, "destination stores in the portable kernels", n, floor)
+
+
+MOVEMASK_LANES = {"_mm_movemask_ps": 4, "_mm256_movemask_ps": 8, "_mm_movemask_pd": 2,
+                  "_mm256_movemask_pd": 4, "_mm_movemask_epi8": 16, "_mm256_movemask_epi8": 32}
+
+
+def movemask_const(rep, prog, rule):
+    rep.rule(rule, "the result of a movemask intrinsic is compared only with 0 ('no lane') or with the "
+             "constant that has one bit per lane of THAT intrinsic ('all lanes': 0xf for _mm_movemask_ps, "
+             "0xff for _mm256_movemask_ps, ...): `_mm256_movemask_ps(x) == 0xf` in the widened copy of an "
+             "SSE4.1 fast path fires when the low four lanes match and the high four do not")
+    n = 0
+    for f in sorted(prog.fns.values(), key=lambda x: x.id):
+        hits = [c for c in f.calls() if short(c.name or "") in MOVEMASK_LANES]
+        if not hits:
+            continue
+        sym = Sym(f)
+        for c in hits:
+            lanes = MOVEMASK_LANES[short(c.name)]
+            full = (1 << lanes) - 1
+            ok_consts = {0, full, full - (1 << 32) if lanes == 32 else full}
+            d = c.dest[0] if c.dest else None
+            for (p_, s_, cond, v_) in sym.edge_facts():
+                cs = cond
+                while isinstance(cs, tuple) and cs and cs[0] in ("copy", "ref", "deref"):
+                    cs = cs[1]
+                if not (isinstance(cs, tuple) and cs and cs[0] == "bin" and cs[1] in ("Eq", "Ne")):
+                    continue
+                for x, k in ((cs[2], cs[3]), (cs[3], cs[2])):
+                    if isinstance(x, tuple) and x and x[0] == "callat" and x[1] == c.bb and \
+                            isinstance(k, tuple) and k and k[0] == "const" and isinstance(k[1], int):
+                        n += 1
+                        rep.touch(f)
+                        key = "%s|%s" % (f.name, short(c.name))
+                        if k[1] in ok_consts:
+                            rep.ok(rule, key, c.at, "compared with %#x" % k[1])
+                        else:
+                            rep.bad(rule, key + "|partial-mask", c.at,
+                                    "%s compares %s (%d lanes) with %#x: neither 0 nor the all-lanes "
+                                    "constant %#x" % (f.name, short(c.name), lanes, k[1], full))
+    rep.note("%s: %d movemask comparisons seen" % (rule, n))
+
+
+FLOAT_SAT_RE = re.compile(r"(^|::)(_mm(256|512)?_(min|max)_ps|_mm(256|512)?_(min|max)_pd|vminq?_f32|vmaxq?_f32|"
+                          r"f32x4_(p?min|p?max)|min|max|clamp)$")
+
+
+def float_alpha_unsaturated(rep, prog, rule, floor=6):
+    rep.rule(rule, "the alpha kernels of the f32 pixel types compute c * a and c / a and nothing else: no "
+             "minimum / maximum / clamp is applied to a float component (float pixels are never clipped: "
+             "a quotient above 1 -- overshoot of a filter, HDR data -- must survive, or the result of an "
+             "alpha-aware resize of an opaque image differs from the one without alpha handling)")
+    n = 0
+    for f in sorted(prog.fns.values(), key=lambda x: x.id):
+        root = f
+        while root is not None and root.kind == "closure":
+            root = prog.fns.get(root.d.get("parent"))
+        if root is None or not re.match(r"^alpha::f32x\d::", root.name):
+            continue
+        n += 1
+        rep.touch(f)
+        bad = []
+        for c in f.calls():
+            nm = c.name or ""
+            if not FLOAT_SAT_RE.search(nm):
+                continue
+            m = short(nm)
+            if m in ("min", "max", "clamp"):
+                # only the float ones (usize::min for lengths is not our business)
+                t0 = f.local_ty(c.args[0][1][0]) if c.args and c.args[0][0] in ("c", "m") else ""
+                if "f32" not in (t0 or "") and "f32" not in nm:
+                    continue
+            bad.append(c)
+        key = "%s|unsaturated" % f.name
+        if bad:
+            rep.bad(rule, "%s|%s" % (f.name, short(bad[0].name)), bad[0].at,
+                    "%s applies %s to a float component in an alpha kernel: float components are "
+                    "saturated" % (f.name, short(bad[0].name)))
+        else:
+            rep.ok(rule, key, f.loc, "no min / max / clamp on float components")
+    rep.floor(rule, "functions of the f32 alpha kernels", n, floor)
